@@ -5,6 +5,7 @@
   truncated → INVALID_DATA (1), negative string size → NEGATIVE_SIZE (2), bad version → BAD_VERSION (4).
 -/
 import Verif.Lemmas.WireS
+import Verif.Lemmas.WireSrc
 namespace Verif.C17
 open Verif.Wire
 
@@ -36,7 +37,22 @@ theorem next_err_wrapped (n : Int) (r r' : Rd) (se : RErr) (h : r.next n = (.fai
     brNext n r = .err (.wrap se) := by
   simp [brNext, h]
 
+/-- stream_err_source (provenance): over C04's buffered reader on a source with script `s0`
+    (`SrcInv s0 r`: C04's invariant with sizes in range and C04's provenance of the reader's error
+    field — true of `Rd.newDefault ⟨S, s0⟩` and of a bytes reader with `s0 = []`, preserved by every
+    non-failing call), the error wrapped by a failing `BufferReader.Read<kind>` is the SOURCE's own:
+    the first error of its script (io.EOF once the script is exhausted), or io.ErrNoProgress when the
+    script has `maxConsecutiveEmptyReads` error-free empty reads in a row — so `errors.Is(err, srcErr)` holds.
+    Composes the call structure of the readers with C04's `step_prov`. -/
+theorem stream_err_source (s0 : List Resp) (k : Kind) (r : Rd) (h : SrcInv s0 r) (e : TErr)
+    (hx : brRead k r = .err e) :
+    (∃ se, e = .wrap se ∧ SrcErrOf s0 se) ∨ e = .pe 2 ∨ e = .pe 4 := by
+  have := brRead_err_source s0 k r h e hx
+  rwa [errNeg_id, errBadVersion_id] at this
+
 /-! non-vacuity -/
+example : SrcInv [⟨3, some (.src 7)⟩] (Rd.newDefault ⟨[1, 2, 3], [⟨3, some (.src 7)⟩]⟩) :=
+  srcInv_newDefault _ _ (by decide)
 example : binRead .str [0x80, 0, 0, 0] = .err (.pe 2, 0) ∧ cause .str [0x80, 0, 0, 0] = .negativeSize := by decide
 example : brRead .i32 (Rd.newDefault ⟨[1, 2, 3], [⟨3, some (.src 7)⟩]⟩) = .err (.wrap (.src 7)) := by decide
 
